@@ -5,7 +5,7 @@ stored in the refresh object is taken and cancelled (or none was stored); the ne
 nothing else touches the stored token; the two entries (timer fired / bootstrap completed) go through
 that routine on the handler's single refresh object and timer. By induction at most one refresh
 token is pending, so rounds happen at most once per 6 s plus once per bootstrap completion."""
-from . import refresh
+from . import common, refresh
 
 EXPLANATION = __doc__
 ASSUMPTIONS = ['Timer::cancel removes the entry with that (deadline, id) key; ids are unique per Timer', 'inductive argument in DESIGN.md section 4/C18']
@@ -13,3 +13,4 @@ ASSUMPTIONS = ['Timer::cancel removes the entry with that (deadline, id) key; id
 
 def run(ctx, res):
     refresh.rule_single_chain(ctx, res)
+    common.rule_timer_cancel(ctx, res)
